@@ -263,6 +263,19 @@ def pickModulus (o : Oracles) (c e : Nat) : Except Err Modulus :=
     gfpxType c
     pure (Modulus.poly c (o.findIrr c e))
 
+/-- (char, ext_deg) from `min_order` ≙ sectypes.py:608-617 -/
+def pickCharDeg (o : Oracles) (char extDeg : Option Nat) (mo : Nat) : Except Err (Nat × Nat) :=
+  match char with
+  | none =>
+    let e := orD extDeg 1
+    pure (leastPrimeGe (ceilRoot mo e), e)
+  | some c =>
+    match extDeg with
+    | none => do
+      let e ← o.ceilLog c mo
+      pure (c, e)
+    | some e => pure (c, e)
+
 /-- no modulus ≙ sectypes.py:601-622; also returns the new `min_order` -/
 def stepNone (o : Oracles) (char extDeg minOrder : Option Nat) : Except Err (Resolved × Option Nat) :=
   match minOrder with
@@ -272,18 +285,9 @@ def stepNone (o : Oracles) (char extDeg minOrder : Option Nat) : Except Err (Res
     let modulus ← pickModulus o c e
     pure (⟨c, e, modulus⟩, some (c ^ e))
   | some mo => do
-    let (c, e) ← match char with
-      | none =>
-        let e := orD extDeg 1
-        pure (leastPrimeGe (ceilRoot mo e), e)
-      | some c =>
-        match extDeg with
-        | none => do
-          let e ← o.ceilLog c mo
-          pure (c, e)
-        | some e => pure (c, e)
-    let modulus ← pickModulus o c e
-    pure (⟨c, e, modulus⟩, some mo)
+    let ce ← pickCharDeg o char extDeg mo
+    let modulus ← pickModulus o ce.1 ce.2
+    pure (⟨ce.1, ce.2, modulus⟩, some mo)
 
 /-- ≙ sectypes.py:577-622 -/
 def resolveArgs (o : Oracles) (a : Args) : Except Err (Resolved × Option Nat) := do
